@@ -808,8 +808,9 @@ class CSSStyleSheet(cssutils.stylesheets.StyleSheet):
                         self._cleanNamespaces()
                     except xml.dom.DOMException:
                         # a namespace still in use would be lost: undo all
-                        self._cssRules[:] = oldrules
+                        del self._cssRules[:]
                         for r in oldrules:
+                            self._cssRules.insert(len(self._cssRules), r)
                             r._parentStyleSheet = self
                         raise
 
